@@ -3,7 +3,7 @@ import z3
 
 from mirsym.values import *
 from mirsym import models_doc as D
-from mirsym.models_std import STD, Str, OStr, Vec
+from mirsym.models_std import STD, Str, OStr, Vec, MapV
 
 CFG_NAMES = ('tab_spaces', 'max_width', 'blank_lines_upper_bound', 'reorder_import_items')
 
@@ -18,7 +18,7 @@ def printer(m, cfg=None, attrs=None):
     if cfg is None:
         cfg = sym_config()
     if attrs is None:
-        attrs = Opaque('attrs', ())
+        attrs = Agg('AttrStore', None, (MapV(),), ('attr_map',))     # no marks: nothing disabled, nothing multiline
     p = Agg('PrettyPrinter', None, (cfg, attrs, Opaque('arena', ())), ('config', 'attr_store', 'arena'))
     return m.heap.alloc(p), cfg
 
